@@ -173,7 +173,7 @@ pub fn specs() -> Vec<PropSpec> {
         },
         PropSpec {
             id: "C09",
-            parts: &[("c09cuts", 32, 480), ("c09queue", 1600, 60000)],
+            parts: &[("c09cuts", 32, 480), ("c09queue", 1600, 60000), ("c18", 160, 3000)],
             level: "fault_enumeration",
             tags: &["C09", "LIVENESS"],
             rule: "Two kinds of evaluation. (1) c09cuts: one (operation, \
